@@ -101,6 +101,9 @@ static uint64_t run_script(int id, int yield) {
             d = NULL;
             st = polyseed_decode(str, coin, &lo, &d); fold(&st, sizeof st);
             if (st == POLYSEED_OK) { polyseed_free(d); }
+            d = NULL;
+            st = polyseed_decode(str, coin, NULL, &d); fold(&st, sizeof st);   /* lang_out is optional */
+            if (st == POLYSEED_OK) { polyseed_free(d); }
         }
         polyseed_data* l = NULL;
         st = polyseed_load(buf, &l); fold(&st, sizeof st);
